@@ -90,6 +90,26 @@ def storage_word_slices(ctx, rid, fxs=None):
            "" if ok else f"{[(a.t, a.v, a.gtext()) for a in fxs.find(domain='sync')]}", plain[0].line if plain else 0)
 
 
+def atomic_backstore(ctx, rid, fxs=None):
+    """CSRStorage(atomic_write=True): the upper words go to the back-store at their own offset, word 0 commits the whole register.
+    Shared with C14: the generated accessors write a multi-word register word by word, an atomic register must then hold what was
+    written.  Returns the commit assignments (used by R5)."""
+    from ..fx import FX
+    if fxs is None:
+        fxs = FX(ctx, CSR, cls="CSRStorage", entries=("__init__", "do_finalize"))
+    bs = [a for a in fxs.find(domain="sync") if a.t.startswith("backstore[")]
+    ok = len(bs) == 1 and bs[0].t == "backstore[i * busword - busword:i * busword + nbits - busword]" and bs[0].v == "sc.r" and \
+        q.EQ(bs[0], B.A("sc.re")) and _i_nonzero(bs[0].pyguards) is True
+    ctx.ob(rid, CSR, "CSRStorage.do_finalize", "atomic: words != 0 go to backstore[lo-busword : hi-busword] under their strobe", ok,
+           "" if ok else f"{[(a.t, a.v, a.gtext(), a.pyguards) for a in bs]}", bs[0].line if bs else 0)
+    cm = [a for a in fxs.find(domain="sync", target="self.storage") if "backstore" in a.v]
+    ok = len(cm) == 1 and cm[0].v == "Cat(sc.r, backstore)" and q.EQ(cm[0], B.A("sc.re")) and \
+        _i_nonzero(cm[0].pyguards) is False
+    ctx.ob(rid, CSR, "CSRStorage.do_finalize", "atomic: word 0 commits Cat(sc.r, backstore) under its strobe", ok,
+           "" if ok else f"{[(a.v, a.gtext(), a.pyguards) for a in cm]}", cm[0].line if cm else 0)
+    return cm
+
+
 def last_word_strobes(ctx, rid, fxs=None, fxt=None):
     """The register-level strobes of a multi-word CSR follow the word at the LAST bus address (the loop variable after the word loop):
     CSRStorage.re, CSRStatus.we / re.  Shared with C14: the generated accessors write the words in ascending address order and rely
@@ -262,16 +282,7 @@ def run(ctx):
     fxs = FX(ctx, CSR, cls="CSRStorage", entries=("__init__", "do_finalize"))
     fail_closed(ctx, fxs, "CSRStorage")
     storage_word_slices(ctx, "R2", fxs)
-    bs = [a for a in fxs.find(domain="sync") if a.t.startswith("backstore[")]
-    ok = len(bs) == 1 and bs[0].t == "backstore[i * busword - busword:i * busword + nbits - busword]" and bs[0].v == "sc.r" and \
-        q.EQ(bs[0], B.A("sc.re")) and _i_nonzero(bs[0].pyguards) is True
-    ctx.ob("R2", CSR, "CSRStorage.do_finalize", "atomic: words != 0 go to backstore[lo-busword : hi-busword] under their strobe", ok,
-           "" if ok else f"{[(a.t, a.v, a.gtext(), a.pyguards) for a in bs]}", bs[0].line if bs else 0)
-    cm = [a for a in fxs.find(domain="sync", target="self.storage") if "backstore" in a.v]
-    ok = len(cm) == 1 and cm[0].v == "Cat(sc.r, backstore)" and q.EQ(cm[0], B.A("sc.re")) and \
-        _i_nonzero(cm[0].pyguards) is False
-    ctx.ob("R2", CSR, "CSRStorage.do_finalize", "atomic: word 0 commits Cat(sc.r, backstore) under its strobe", ok,
-           "" if ok else f"{[(a.v, a.gtext(), a.pyguards) for a in cm]}", cm[0].line if cm else 0)
+    cm = atomic_backstore(ctx, "R2", fxs)
     last_word_strobes(ctx, "R2", fxs=fxs)
     dev = [a for a in fxs.find(domain="sync", target="self.storage") if a.v == "self.dat_w"]
     ok = len(dev) == 1 and q.EQ(dev[0], B.A("self.we")) and ("write_from_dev", True) in dev[0].pyguards
